@@ -130,6 +130,15 @@ def check_object_behaviour(ctx, case):
             ctx.fail("a SeqRecord declared {} can be wrapped as circular".format(topo), case)
         except ValueError:
             pass
+    # what is wrapped may itself be a circular record whose annotation was changed afterwards: the declaration counts
+    relab = CircularRecord(Seq(wd), id="relabelled")
+    for spelling in ("linear", "Linear", "LINEAR"):
+        relab.annotations["topology"] = spelling
+        try:
+            CircularRecord(relab)
+            ctx.fail("a circular record re-declared {!r} afterwards can be wrapped as circular again".format(spelling), case)
+        except ValueError:
+            pass
     # copy-on-wrap isolation — whether what is wrapped is a plain record or already a circular one
     for already in (False, True):
         src = impl.mk_record(CRec(1, wd, feats_from_json(case["feats"]), [5]), circular=already)
